@@ -556,6 +556,10 @@ def audit(root, top, scope='', hashes=None, devmap=None, prior_in_use=(), writte
         if not psw(full, scope):
             continue
         if any(psw(full, i) for i in ignores):
+            if any(e_['tag'] != 'MANIFEST' for e_, _mp in es) and \
+                    any(psw(full, i) and full != i and not psw(scope, i) for i in ignores):
+                # a leftover from before the directory was declared IGNOREd: nothing keeps it true any more
+                a.add('entry-under-ignore', full, es[0][1])
             continue
         f2 = probe(m._p(full), want_data=False)
         if not f2.exists:
